@@ -4,6 +4,7 @@ def b_TrafficLightCycleElement_create_node : CR.SrcW.Builder where
   kind := .node
   tag := "cycleElement"
   xsd := "trafficCycleElement"
+  path := []
   parent := ""
   attrs := []
   gattrs := []
@@ -18,7 +19,8 @@ def b_TrafficLightCycleElement_create_node_color : CR.SrcW.Builder where
   key := "TrafficLightCycleElementXMLNode.create_node/color"
   kind := .node
   tag := "color"
-  xsd := ""
+  xsd := "trafficCycleElement"
+  path := ["color"]
   parent := "TrafficLightCycleElementXMLNode.create_node"
   attrs := []
   gattrs := []
@@ -31,7 +33,8 @@ def b_TrafficLightCycleElement_create_node_duration : CR.SrcW.Builder where
   key := "TrafficLightCycleElementXMLNode.create_node/duration"
   kind := .node
   tag := "duration"
-  xsd := ""
+  xsd := "trafficCycleElement"
+  path := ["duration"]
   parent := "TrafficLightCycleElementXMLNode.create_node"
   attrs := []
   gattrs := []
